@@ -241,7 +241,6 @@ func lspPositionFromIdx(s string, idx int) lsp.Position {
 // Generates (index, lspPosition) pairs in s, stopping if f returns false.
 func walkString(s string, f func(i int, p lsp.Position) bool) {
 	var p lsp.Position
-	lastCR := false
 
 	for i, r := range s {
 		if !f(i, p) {
@@ -249,15 +248,19 @@ func walkString(s string, f func(i int, p lsp.Position) bool) {
 		}
 		switch {
 		case r == '\r':
-			p.Line++
-			p.Character = 0
-		case r == '\n':
-			if lastCR {
-				// Ignore \n if it's part of a \r\n sequence
+			if i+1 < len(s) && s[i+1] == '\n' {
+				// First half of a \r\n sequence: the line break is completed
+				// by the \n. Count the \r as a character of the line, so that
+				// the offsets before it, after it and after the \n all have
+				// distinct positions.
+				p.Character++
 			} else {
 				p.Line++
 				p.Character = 0
 			}
+		case r == '\n':
+			p.Line++
+			p.Character = 0
 		case r <= 0xFFFF:
 			// Encoded in UTF-16 with one unit
 			p.Character++
@@ -265,7 +268,6 @@ func walkString(s string, f func(i int, p lsp.Position) bool) {
 			// Encoded in UTF-16 with two units
 			p.Character += 2
 		}
-		lastCR = r == '\r'
 	}
 	f(len(s), p)
 }
